@@ -56,8 +56,16 @@ Definition restamp (s : st) : st :=
                               | _ => cl
                               end) (calls s)).
 
+(* socket.Reset inside ModifySocket stores curState = normal: a socket the stale reader of an
+   earlier connection has closed meanwhile (readDisconnected D6 closes the CURRENT connection)
+   is open again, on a connection that stays closed: the next write is attempted and fails in
+   the kernel instead of being refused with ErrProactivelyCloseSocket *)
+Definition reopen (s : st) : st :=
+  mkSt (budget s) (status_ s) (conn s) (fresh s) false (lost s) (id s) (index s) (notified s)
+       (dischooks s) (hooks s) (okrounds s) (rounds s) (readers s) (calls s) (lock s) (plan s) (pdef s) (wedged s).
+
 Definition modify (cfg : modcfg) (s : st) : st :=
-  if resets (m_kind cfg) then restamp (set_id s (modify_id cfg (id s))) else s.
+  if resets (m_kind cfg) then reopen (restamp (set_id s (modify_id cfg (id s)))) else s.
 
 (* closure: oldIP == oldID.  Behind a renamed conn LocalAddr() never prints the raw local
    address an address-derived id was made of (Proofs.SockIdProofs.first_dial_renamed), so the
